@@ -216,3 +216,366 @@ theorem tombScan_spec (ranges : List Int) : ∀ (l r : List Meta), tombScan rang
           · exact Or.inr ⟨b, List.mem_cons_of_mem _ hb, h'⟩
 
 end Thanos.Planner
+
+namespace Thanos.Planner
+
+/-! ### splitByRange: every part fits one aligned range -/
+
+theorem rangeStart_spec (tr mint : Int) (htr : 0 < tr) : ∃ k : Int, rangeStart tr mint = tr * k ∧ tr * k ≤ mint := by
+  unfold rangeStart
+  by_cases h : mint ≥ 0
+  · simp only [h, if_true]
+    refine ⟨Int.tdiv mint tr, rfl, ?_⟩
+    have h1 := Int.mul_tdiv_add_tmod mint tr
+    have h2 := Int.tmod_nonneg tr h
+    omega
+  · simp only [h, if_false]
+    refine ⟨Int.tdiv (mint - tr + 1) tr, rfl, ?_⟩
+    have h1 := Int.mul_tdiv_add_tmod (mint - tr + 1) tr
+    have h2 := Int.lt_tmod_of_pos (mint - tr + 1) htr
+    omega
+
+def SortedByMin (ms : List Meta) : Prop := ms.Pairwise (fun a b => a.min ≤ b.min)
+
+theorem split_fits (tr : Int) (htr : 0 < tr) : ∀ (ms : List Meta) (st : Option Int), SortedByMin ms →
+    (∀ hi, st = some hi → ∀ b ∈ (split tr st ms).1, b.max ≤ hi) ∧
+    ∀ g ∈ (split tr st ms).2, ∃ k : Int, ∀ b ∈ g, tr * k ≤ b.min ∧ b.max ≤ tr * k + tr
+  | [], st, _ => by simp [split]
+  | m :: rest, st, hs => by
+    have hs' := List.pairwise_cons.mp hs
+    have ih := fun st' => split_fits tr htr rest st' hs'.2
+    have hfresh : ∀ (fr : List Meta × List (List Meta)),
+        fr = (if m.max > rangeStart tr m.min + tr then ([], (split tr none rest).2)
+              else ([], (m :: (split tr (some (rangeStart tr m.min + tr)) rest).1) ::
+                        (split tr (some (rangeStart tr m.min + tr)) rest).2)) →
+        (∀ hi : Int, ∀ b ∈ fr.1, b.max ≤ hi) ∧
+        ∀ g ∈ fr.2, ∃ k : Int, ∀ b ∈ g, tr * k ≤ b.min ∧ b.max ≤ tr * k + tr := by
+      intro fr hfr
+      subst hfr
+      by_cases h : m.max > rangeStart tr m.min + tr
+      · simp only [h, if_true]
+        exact ⟨by simp, (ih none).2⟩
+      · simp only [h, if_false]
+        refine ⟨by simp, ?_⟩
+        intro g hg
+        rcases List.mem_cons.mp hg with rfl | hg
+        · obtain ⟨k, hk, hle⟩ := rangeStart_spec tr m.min htr
+          refine ⟨k, ?_⟩
+          intro b hb
+          rcases List.mem_cons.mp hb with rfl | hb
+          · constructor <;> omega
+          · have h1 := (ih (some (rangeStart tr m.min + tr))).1 _ rfl b hb
+            have h2 := hs'.1 b ((split_sublist tr rest _).1.subset hb)
+            constructor <;> omega
+        · exact (ih _).2 g hg
+    unfold split
+    cases st with
+    | none =>
+      have := hfresh _ rfl
+      exact ⟨by intro hi h; simp at h, this.2⟩
+    | some hi =>
+      simp only
+      by_cases h : m.max > hi
+      · simp only [h, if_true]
+        have := hfresh _ rfl
+        exact ⟨fun hi' _ b hb => this.1 hi' b hb, this.2⟩
+      · simp only [h, if_false]
+        refine ⟨?_, (ih _).2⟩
+        intro hi' hh b hb
+        simp only [Option.some.injEq] at hh
+        subst hh
+        rcases List.mem_cons.mp hb with rfl | hb
+        · omega
+        · exact (ih (some hi)).1 hi rfl b hb
+
+/-- a part of `splitByRange` fits the aligned range `[tr·k, tr·k + tr]` -/
+theorem splitByRange_fits (ms : List Meta) (tr : Int) (htr : 0 < tr) (hs : SortedByMin ms) :
+    ∀ g ∈ splitByRange ms tr, ∃ k : Int, ∀ b ∈ g, tr * k ≤ b.min ∧ b.max ≤ tr * k + tr :=
+  (split_fits tr htr ms none hs).2
+
+/-- what `pickRange` returns comes from one part of one range of the list -/
+theorem pickRange_from_part (excl : Excl) (hi : Int) (ms : List Meta) : ∀ (ivs : List Int) (r : List Meta),
+    pickRange excl hi ms ivs = some r → r ≠ [] →
+    ∃ iv ∈ ivs, ∃ p ∈ splitByRange ms iv, r.Sublist p
+  | [], r, h, hne => by simp [pickRange] at h; exact absurd h hne
+  | iv :: ivs, r, h, hne => by
+    unfold pickRange at h
+    split at h
+    · simp at h
+    · split at h
+      · rename_i r' hr'
+        simp only [Option.some.injEq] at h
+        subst h
+        obtain ⟨p, hp, hsc⟩ := pickPart_spec excl hi iv _ _ hr'
+        exact ⟨iv, by simp, p, hp, (exclScan_spec excl p r' hsc).1⟩
+      · obtain ⟨iv', hiv', rest⟩ := pickRange_from_part excl hi ms ivs r h hne
+        exact ⟨iv', List.mem_cons_of_mem _ hiv', rest⟩
+
+theorem selectMetas_from_part (ranges : List Int) (excl : Excl) (ms r : List Meta)
+    (h : selectMetas ranges excl ms = some r) (hne : r ≠ []) :
+    ∃ iv ∈ ranges.tail, ∃ p ∈ splitByRange ms iv, r.Sublist p := by
+  unfold selectMetas at h
+  split at h
+  · simp at h; exact absurd h hne
+  · split at h
+    · simp at h; exact absurd h hne
+    · exact pickRange_from_part excl _ ms _ r h hne
+
+/-! ### plan / apply: the measure that decreases -/
+
+theorem filter_length_sublist (keep : Meta → Bool) : ∀ {p ms : List Meta}, p.Sublist ms →
+    (∀ b ∈ p, keep b = false) → (ms.filter keep).length + p.length ≤ ms.length
+  | _, _, .slnil, _ => by simp
+  | _, _, .cons a hsub, hk => by
+    have := filter_length_sublist keep hsub hk
+    have h2 := List.length_filter_le keep [a]
+    simp only [List.filter_cons, List.length_cons]
+    split <;> simp <;> omega
+  | _, _, .cons_cons a hsub, hk => by
+    have := filter_length_sublist keep hsub (fun b hb => hk b (List.mem_cons_of_mem _ hb))
+    have ha := hk a (by simp)
+    simp only [List.filter_cons, ha, List.length_cons]
+    simp
+    omega
+
+theorem filter_countP_sublist (keep q : Meta → Bool) : ∀ {p ms : List Meta}, p.Sublist ms →
+    (∀ b ∈ p, keep b = false) → (ms.filter keep).countP q + p.countP q ≤ ms.countP q
+  | _, _, .slnil, _ => by simp
+  | _, _, .cons a hsub, hk => by
+    have := filter_countP_sublist keep q hsub hk
+    simp only [List.filter_cons, List.countP_cons]
+    by_cases hka : keep a = true <;> by_cases hqa : q a = true <;> simp [hka, hqa, List.countP_cons] <;> omega
+  | _, _, .cons_cons a hsub, hk => by
+    have := filter_countP_sublist keep q hsub (fun b hb => hk b (List.mem_cons_of_mem _ hb))
+    have ha := hk a (by simp)
+    simp only [List.filter_cons, ha, List.countP_cons]
+    simp
+    split <;> omega
+
+theorem insertByMin_length (b : Meta) : ∀ (l : List Meta), (insertByMin b l).length = l.length + 1
+  | [] => rfl
+  | m :: l => by
+    unfold insertByMin
+    split
+    · simp
+    · simp [insertByMin_length b l]
+
+theorem insertByMin_countP (q : Meta → Bool) (b : Meta) : ∀ (l : List Meta),
+    (insertByMin b l).countP q = l.countP q + (if q b then 1 else 0)
+  | [] => by simp [insertByMin, List.countP_cons]
+  | m :: l => by
+    unfold insertByMin
+    split
+    · simp only [List.countP_cons]
+    · simp only [List.countP_cons, insertByMin_countP q b l]; omega
+
+/-- blocks plus blocks with many tombstones: what every applied plan decreases -/
+def measure (ms : List Meta) : Nat := ms.length + ms.countP manyTombstones
+
+theorem hull_no_tombstones (newId : Nat) (p : List Meta) : manyTombstones (hull newId p) = false := by
+  cases p <;> simp [hull, manyTombstones]
+
+theorem applyPlan_measure (newId : Nat) (p ms : List Meta) (hsub : p.Sublist ms)
+    (hp : 2 ≤ p.length ∨ ∃ b, p = [b] ∧ manyTombstones b = true) :
+    measure (applyPlan newId p ms) < measure ms := by
+  have hk : ∀ b ∈ p, (fun m : Meta => !(p.any (fun q => q.id = m.id))) b = false := by
+    intro b hb
+    simp only [Bool.not_eq_false', List.any_eq_true, decide_eq_true_eq]
+    exact ⟨b, hb, rfl⟩
+  have h1 := filter_length_sublist _ hsub hk
+  have h2 := filter_countP_sublist _ manyTombstones hsub hk
+  unfold measure applyPlan
+  rw [insertByMin_length, insertByMin_countP, hull_no_tombstones]
+  simp only [Bool.false_eq_true, if_false, Nat.add_zero]
+  rcases hp with hp | ⟨b, rfl, hb⟩
+  · omega
+  · simp only [List.length_cons, List.length_nil, List.countP_cons, List.countP_nil, hb, if_true] at h1 h2
+    omega
+
+end Thanos.Planner
+
+namespace Thanos.Planner
+
+/-! ### contiguity: what the range branch and the tombstone branch return is a contiguous piece of the input -/
+
+def Infix (p ms : List Meta) : Prop := ∃ s t, ms = s ++ p ++ t
+
+theorem Infix.trans {a b c : List Meta} (h1 : Infix a b) (h2 : Infix b c) : Infix a c := by
+  obtain ⟨s1, t1, rfl⟩ := h1
+  obtain ⟨s2, t2, rfl⟩ := h2
+  exact ⟨s2 ++ s1, t1 ++ t2, by simp [List.append_assoc]⟩
+
+theorem scan_infix (excl : Excl) : ∀ (p : List Meta),
+    (∃ t, p = (scan excl p).1 ++ t) ∧ (∀ r, (scan excl p).2 = some r → Infix r p)
+  | [] => by simp [scan]
+  | m :: rest => by
+    obtain ⟨⟨t, ht⟩, h2⟩ := scan_infix excl rest
+    unfold scan
+    by_cases he : excl m.id = true
+    · simp only [he, if_true]
+      refine ⟨⟨m :: rest, by simp⟩, ?_⟩
+      intro r hr
+      by_cases hl : (scan excl rest).1.length > 1
+      · simp only [hl, if_true, Option.some.injEq] at hr
+        subst hr
+        exact ⟨[m], t, by simp [← ht]⟩
+      · simp only [hl, if_false] at hr
+        obtain ⟨s', t', hst⟩ := h2 r hr
+        exact ⟨m :: s', t', by simp [hst]⟩
+    · have he' : excl m.id = false := by simpa using he
+      simp only [he', Bool.false_eq_true, if_false]
+      refine ⟨⟨t, by simp [← ht]⟩, ?_⟩
+      intro r hr
+      obtain ⟨s', t', hst⟩ := h2 r hr
+      exact ⟨m :: s', t', by simp [hst]⟩
+
+theorem exclScan_infix (excl : Excl) (p r : List Meta) (h : exclScan excl p = some r) : Infix r p := by
+  obtain ⟨⟨t, ht⟩, h2⟩ := scan_infix excl p
+  unfold exclScan at h
+  by_cases hl : (scan excl p).1.length > 1
+  · simp only [hl, if_true, Option.some.injEq] at h
+    subst h
+    exact ⟨[], t, by simpa using ht⟩
+  · simp only [hl, if_false] at h
+    exact h2 r h
+
+theorem split_infix (tr : Int) : ∀ (ms : List Meta) (st : Option Int),
+    (∃ t, ms = (split tr st ms).1 ++ t) ∧ ∀ g ∈ (split tr st ms).2, Infix g ms
+  | [], st => by simp [split]
+  | m :: rest, st => by
+    have ih := split_infix tr rest
+    have hfresh : ∀ (fr : List Meta × List (List Meta)),
+        fr = (if m.max > rangeStart tr m.min + tr then ([], (split tr none rest).2)
+              else ([], (m :: (split tr (some (rangeStart tr m.min + tr)) rest).1) ::
+                        (split tr (some (rangeStart tr m.min + tr)) rest).2)) →
+        (∃ t, m :: rest = fr.1 ++ t) ∧ ∀ g ∈ fr.2, Infix g (m :: rest) := by
+      intro fr hfr
+      subst hfr
+      by_cases h : m.max > rangeStart tr m.min + tr
+      · simp only [h, if_true]
+        refine ⟨⟨m :: rest, by simp⟩, ?_⟩
+        intro g hg
+        obtain ⟨s', t', hst⟩ := (ih none).2 g hg
+        exact ⟨m :: s', t', by simp [hst]⟩
+      · simp only [h, if_false]
+        refine ⟨⟨m :: rest, by simp⟩, ?_⟩
+        intro g hg
+        rcases List.mem_cons.mp hg with rfl | hg
+        · obtain ⟨t, ht⟩ := (ih (some (rangeStart tr m.min + tr))).1
+          exact ⟨[], t, by simp [← ht]⟩
+        · obtain ⟨s', t', hst⟩ := (ih _).2 g hg
+          exact ⟨m :: s', t', by simp [hst]⟩
+    unfold split
+    cases st with
+    | none => exact hfresh _ rfl
+    | some hi =>
+      simp only
+      by_cases h : m.max > hi
+      · simp only [h, if_true]
+        exact hfresh _ rfl
+      · simp only [h, if_false]
+        obtain ⟨t, ht⟩ := (ih (some hi)).1
+        refine ⟨⟨t, by simp [← ht]⟩, ?_⟩
+        intro g hg
+        obtain ⟨s', t', hst⟩ := (ih _).2 g hg
+        exact ⟨m :: s', t', by simp [hst]⟩
+
+theorem pickRange_infix (excl : Excl) (hi : Int) (ms : List Meta) : ∀ (ivs : List Int) (r : List Meta),
+    pickRange excl hi ms ivs = some r → r ≠ [] → Infix r ms
+  | [], r, h, hne => by simp [pickRange] at h; exact absurd h hne
+  | iv :: ivs, r, h, hne => by
+    unfold pickRange at h
+    split at h
+    · simp at h
+    · split at h
+      · rename_i r' hr'
+        simp only [Option.some.injEq] at h
+        subst h
+        obtain ⟨p, hp, hsc⟩ := pickPart_spec excl hi iv _ _ hr'
+        exact (exclScan_infix excl p r' hsc).trans ((split_infix iv ms none).2 p hp)
+      · exact pickRange_infix excl hi ms ivs r h hne
+
+theorem selectMetas_infix (ranges : List Int) (excl : Excl) (ms r : List Meta)
+    (h : selectMetas ranges excl ms = some r) (hne : r ≠ []) : Infix r ms := by
+  unfold selectMetas at h
+  split at h
+  · simp at h; exact absurd h hne
+  · split at h
+    · simp at h; exact absurd h hne
+    · exact pickRange_infix excl _ ms _ r h hne
+
+theorem infix_dropLast {p ms : List Meta} (h : Infix p ms.dropLast) : Infix p ms := by
+  obtain ⟨s, t, hst⟩ := h
+  refine ⟨s, t ++ ms.drop (ms.length - 1), ?_⟩
+  have h := (List.take_append_drop (ms.length - 1) ms).symm
+  rw [← List.dropLast_eq_take, hst] at h
+  calc ms = s ++ p ++ t ++ List.drop (ms.length - 1) ms := h
+    _ = s ++ p ++ (t ++ List.drop (ms.length - 1) ms) := by simp [List.append_assoc]
+
+/-! ### the hull of a plan -/
+
+theorem minOf_spec : ∀ (ms : List Meta) (a : Int),
+    minOf ms a ≤ a ∧ (minOf ms a = a ∨ ∃ b ∈ ms, minOf ms a = b.min)
+  | [], a => by simp [minOf]
+  | m :: ms, a => by
+    unfold minOf
+    by_cases hlt : m.min < a
+    · simp only [hlt, if_true]
+      obtain ⟨h1, h2⟩ := minOf_spec ms m.min
+      refine ⟨by omega, ?_⟩
+      rcases h2 with h2 | ⟨b, hb, h2⟩
+      · exact Or.inr ⟨m, by simp, h2⟩
+      · exact Or.inr ⟨b, List.mem_cons_of_mem _ hb, h2⟩
+    · simp only [hlt, if_false]
+      obtain ⟨h1, h2⟩ := minOf_spec ms a
+      refine ⟨h1, ?_⟩
+      rcases h2 with h2 | ⟨b, hb, h2⟩
+      · exact Or.inl h2
+      · exact Or.inr ⟨b, List.mem_cons_of_mem _ hb, h2⟩
+
+theorem maxOf_spec : ∀ (ms : List Meta) (a : Int),
+    a ≤ maxOf ms a ∧ (maxOf ms a = a ∨ ∃ b ∈ ms, maxOf ms a = b.max)
+  | [], a => by simp [maxOf]
+  | m :: ms, a => by
+    unfold maxOf
+    by_cases hlt : m.max > a
+    · simp only [hlt, if_true]
+      obtain ⟨h1, h2⟩ := maxOf_spec ms m.max
+      refine ⟨by omega, ?_⟩
+      rcases h2 with h2 | ⟨b, hb, h2⟩
+      · exact Or.inr ⟨m, by simp, h2⟩
+      · exact Or.inr ⟨b, List.mem_cons_of_mem _ hb, h2⟩
+    · simp only [hlt, if_false]
+      obtain ⟨h1, h2⟩ := maxOf_spec ms a
+      refine ⟨h1, ?_⟩
+      rcases h2 with h2 | ⟨b, hb, h2⟩
+      · exact Or.inl h2
+      · exact Or.inr ⟨b, List.mem_cons_of_mem _ hb, h2⟩
+
+/-- the compacted block starts where one of its sources starts, ends where one of them ends, and
+    contains the first source -/
+theorem hull_spec (newId : Nat) (m : Meta) (ms : List Meta) :
+    (∃ a ∈ m :: ms, (hull newId (m :: ms)).min = a.min) ∧ (∃ b ∈ m :: ms, (hull newId (m :: ms)).max = b.max) ∧
+    (hull newId (m :: ms)).min ≤ m.min ∧ m.max ≤ (hull newId (m :: ms)).max := by
+  obtain ⟨h1, h2⟩ := minOf_spec ms m.min
+  obtain ⟨h3, h4⟩ := maxOf_spec ms m.max
+  refine ⟨?_, ?_, h1, h3⟩
+  · rcases h2 with h2 | ⟨b, hb, h2⟩
+    · exact ⟨m, by simp, h2⟩
+    · exact ⟨b, List.mem_cons_of_mem _ hb, h2⟩
+  · rcases h4 with h4 | ⟨b, hb, h4⟩
+    · exact ⟨m, by simp, h4⟩
+    · exact ⟨b, List.mem_cons_of_mem _ hb, h4⟩
+
+theorem mem_insertByMin {b c : Meta} : ∀ {l : List Meta}, c ∈ insertByMin b l ↔ c = b ∨ c ∈ l
+  | [] => by simp [insertByMin]
+  | m :: l => by
+    unfold insertByMin
+    split
+    · simp
+    · simp only [List.mem_cons, mem_insertByMin (l := l)]
+      constructor
+      · rintro (h | h | h) <;> simp [h]
+      · rintro (h | h | h) <;> simp [h]
+
+end Thanos.Planner
